@@ -57,7 +57,11 @@ SignedShapes ==
      SignedShape("ReadLeaseSet", EncLeaseSet(Id("key", 7, 4), 7, 2, << EncLease(1, T4, Zeros(8)), EncLease(2, T4, Zeros(8)) >>, 5), 7, 0),
      SignedShape("ReadRouterInfo", EncRouterInfo(Id("key", 7, 4), 7, Zeros(8), << AddrSSU >>, 0, Opts, 5), 7, 0) >>
 SignedVecs == Cross2(SignedShapes, Ns, LAMBDA sh, n : [op |-> "Concurrent", n |-> n, reps |-> Reps, cls |-> "signed/n" \o ToString(n)] @@ sh)
-Vecs == SignedVecs \o Cross2(Shapes \o ShapesU \o ShapesS, Ns, LAMBDA sh, n : [op |-> "Concurrent", fn |-> sh[1], in |-> sh[2], n |-> n, reps |-> Reps, cls |-> "n" \o ToString(n)] @@ sh[3])
+\* distinct values verified at the same time: the genuine structure and a copy with one covered bit flipped (three positions each)
+DistinctVecs ==
+  Concat(SeqMap(LAMBDA sh : SeqMap(LAMBDA off : [op |-> "ConcurrentVerify", n |-> 4, reps |-> Reps * 5, flipoff |-> off, cls |-> "flip"] @@ sh,
+                                   ContentOffsets(sh.fn, sh.base, sh.typ)), SignedShapes))
+Vecs == SignedVecs \o DistinctVecs \o Cross2(Shapes \o ShapesU \o ShapesS, Ns, LAMBDA sh, n : [op |-> "Concurrent", fn |-> sh[1], in |-> sh[2], n |-> n, reps |-> Reps, cls |-> "n" \o ToString(n)] @@ sh[3])
 VARIABLE done
 Init == done = FALSE
 Next == ~done /\ ndJsonSerialize(OutFile, Vecs) /\ PrintT(<< "GENERATED", Len(Vecs) >>) /\ done' = TRUE
